@@ -25,6 +25,8 @@ def levels(tier):
             {"name": "short-n2", "pools": [short], "absent": [1], "n": 2, "alphabet": ["page", "links", "we"], "backends": ["memory"], "links_batch": 1},
             {"name": "long-n1", "pools": longs[:3], "sparse": True, "absent": [74, 1], "n": 1, "alphabet": alpha,
              "backends": ["file", "memory"], "links_batch": 2},
+            {"name": "mixed-n1", "pools": [[[1], [2, 1], [1, 2]], [[2], [1, 1], [2, 2]]], "absent": [2], "n": 1, "alphabet": alpha,
+             "backends": ["memory"], "links_batch": 2},
         ]
     return [
         {"name": "short-n1", "pools": [short, short3], "absent": [1, 1], "n": 1, "alphabet": alpha, "backends": ["memory", "file"], "links_batch": 2},
@@ -33,6 +35,8 @@ def levels(tier):
         {"name": "long-n1", "pools": longs, "sparse": True, "absent": [74, 1], "n": 1, "alphabet": alpha, "backends": ["file", "memory"], "links_batch": 2},
         {"name": "long-n2", "pools": longs, "sparse": True, "absent": [74], "n": 2, "alphabet": alpha, "backends": ["file", "memory"], "links_batch": 1},
         {"name": "long-full-n1", "pools": longs[:2], "sparse": False, "absent": [74], "n": 1, "alphabet": ["page", "links"], "backends": ["file"], "links_batch": 1},
+        {"name": "mixed-n2", "pools": [[[1], [2, 1], [1, 2]], [[2], [1, 1], [2, 2]], [[3], [1, 3], [2, 1]]], "absent": [2], "n": 2,
+         "alphabet": ["page", "links", "we"], "backends": ["memory"], "links_batch": 1},
         {"name": "short-n3", "pools": [short], "absent": [1], "n": 3, "alphabet": ["page", "links", "we"], "backends": ["memory"], "links_batch": 1},
     ]
 
